@@ -15,6 +15,7 @@ CONSTANTS
   DrainMode = "raw"
   Strict = FALSE
   WithServe = FALSE
+  Hist = FALSE
 INVARIANTS C06_Silent C06_NoEarlyClose C06_CloseInstant C06_NormalClose C06_NotStuckAfterDeadline C06_DrainHolds
 INVARIANTS C15_Language C15_AuthOnlyIfAuthenticated C15_ProbeIffFailed C15_ProbeBytes C15_Status C15_OkIffComplete C15_Counters
 INVARIANTS C18_NoLeak C18_ServeWaits C18_SocketsFollowHandler
